@@ -3,6 +3,7 @@
 package dicescript
 
 func init() {
+	vHarnesses["VH_C01_src"] = VH_C01_src
 	vHarnesses["VH_C01_ops2"] = VH_C01_ops2
 	vHarnesses["VH_C01_ops1"] = VH_C01_ops1
 	vHarnesses["VH_C01_ops3"] = VH_C01_ops3
@@ -130,4 +131,29 @@ func VH_C01_cap() {
 	err := vm.Run(progs[k])
 	vReach("ran")
 	vObserveAll(vm, err)
+}
+
+//vh:prop=C01 tiers=quick,thorough sigkeys=cfg overrides=formatFriendlyError summaries=Roll:roll-log unwind=400 unwind_ok=1 maxsteps=8000000 budget_s=1800 quick:P.n=2 thorough:P.n=3 bounds="every source text of exactly n bytes over ALL byte values 0x00-0xFF (n=2 quick, n=3 thorough; invalid UTF-8 included; shorter texts arise as prefixes followed by a rejected or ignored byte), parsed, run and observed (value, repr, process text, bytecode listing, matched / rest text, error text) and run a second time on the same VM, under 4 configurations (default; every dice family on with min mode; DisableStmts+DisableNDice+DisableBitwiseOp; IgnoreDiv0 with a default-sides expression and budgets 200 / 100): no panic site is feasible; dice are fixed low faces; syntax-error formatting is stubbed here (C19 covers it)"
+func VH_C01_src() {
+	src := string(vSymBytes("b", vParam("n", 2)))
+	vm := NewVM()
+	switch vChoice("cfg", 4) {
+	case 1:
+		vm = vNewVM()
+		vm.Config.DiceMinMode = true
+	case 2:
+		vm.Config.DisableStmts, vm.Config.DisableNDice, vm.Config.DisableBitwiseOp = true, true, true
+	case 3:
+		vm = vNewVM()
+		vm.Config.IgnoreDiv0 = true
+		vm.Config.DefaultDiceSideExpr = "d4 + 2"
+		vm.Config.OpCountLimit = 200
+		vm.Config.ParseExprLimit = 100
+	}
+	err := vm.Run(src)
+	vObserveAll(vm, err)
+	_ = vm.GetAsmText()
+	err = vm.Run(src)
+	vObserveAll(vm, err)
+	vReach("ran-twice")
 }
